@@ -48,10 +48,10 @@ def rate_expr(tmpl, p, q, X, Y, dname):
     raise ValueError(tmpl)
 
 
-def gen_model(ch, stochastic=False, max_states=5, max_events=5):
+def gen_model(ch, stochastic=False, max_states=5, max_events=5, only_T=False):
     """Build a Def.  stochastic=True restricts to event-only models with integer
     magnitudes (the simulable class)."""
-    ns = ch.choose("n_states", [3, 1, 2, 4, 5][:max(1, min(5, max_states + 0))])
+    ns = ch.choose("n_states", [3, 2, 4, 5] if only_T else [3, 1, 2, 4, 5])
     if ns > max_states:
         ns = max_states
     style_opts = ["list", "string", "comma", "tuples", "range", "odevar", "commaspace"]
@@ -96,6 +96,8 @@ def gen_model(ch, stochastic=False, max_states=5, max_events=5):
         for k in range(ntr):
             tp = pre + "tr%d." % k
             types = ["T", "B", "D"] if ns >= 2 else ["B", "D"]
+            if only_T:
+                types = ["T"]
             typ = ch.choose(tp + "type", types)
             o = ch.choose(tp + "o", _rot(states, e + k))
             if typ == "T":
@@ -262,5 +264,27 @@ def seed_values(name):
         v = {"n_states": 3, "n_params": 2, "n_events": 2}
         v.update(_ev(0, "linear", "beta", "S", trans=[("T", "S", "I", "1")]))
         v.update(_ev(1, "linear", "gamma", "I", trans=[("T", "I", "R", "1")]))
+        return v
+    if name == "DRAIN":   # constant-rate death can drive a state below zero; limits declared
+        v = {"n_states": 2, "n_params": 2, "n_events": 2, "state_style": "tuples",
+             "lim0": (0, 3), "lim1": (0, None)}
+        v.update(_ev(0, "constant", "beta", trans=[("D", "S", None, "2")]))
+        v.update(_ev(1, "linear", "gamma", "S", trans=[("T", "S", "I", "1"), ("B", None, "I", "1")]))
+        return v
+    if name == "CAPPED":  # births into a state with an upper limit
+        v = {"n_states": 2, "n_params": 2, "n_events": 2, "lim0": (None, 4), "lim1": (1, None)}
+        v.update(_ev(0, "constant", "beta", trans=[("B", None, "S", "3")]))
+        v.update(_ev(1, "constant", "gamma", trans=[("T", "I", "S", "1")]))
+        return v
+    if name == "RANGE":   # range-style declaration
+        v = {"n_states": 3, "n_params": 2, "n_events": 2, "state_style": "range"}
+        v.update(_ev(0, "massaction", "beta", "y1", "y2", trans=[("T", "y1", "y2", "1")]))
+        v.update(_ev(1, "constant", "gamma", trans=[("D", "y2", None, "1"), ("D", "y3", None, "1")]))
+        return v
+    if name == "SIRS2":   # closed, magnitudes 2, cycle
+        v = {"n_states": 3, "n_params": 3, "n_events": 3}
+        v.update(_ev(0, "massaction", "beta", "S", "I", trans=[("T", "S", "I", "1")]))
+        v.update(_ev(1, "linear", "gamma", "I", trans=[("T", "I", "R", "2")]))
+        v.update(_ev(2, "saturating", "mu", "R", "S", trans=[("T", "R", "S", "1"), ("T", "I", "S", "1")]))
         return v
     raise KeyError(name)
